@@ -568,6 +568,23 @@ def check_memo(run: Run, tier: str, T: dict, stats: dict) -> None:
         for r in recs:
             r["id"] = f"{r['id']}@{s}"
             records.append(r)
+    # A comparison that creates further comparer instances (each with an empty memo)
+    # or whose trace is super-linear in the number of node pairs has already lost
+    # the memo: report it here; such traces can be exponentially long, so they are
+    # not handed to TLC.
+    keep = []
+    for rec in records:
+        npairs = max(1, len(rec["nodes"])) ** 2
+        if rec["ncomparers"] != 1 or len(rec["evs"]) > 8 * npairs:
+            run.violation(f"memo/comparers/{rec['id'].split('@')[0]}",
+                          f"EqualityComparer on {rec['id']}: {rec['ncomparers']} comparer "
+                          f"instance(s) and {len(rec['evs'])} events for {len(rec['nodes'])} "
+                          f"nodes ({rec['paths']} paths): the pairwise memo is not shared",
+                          record={"check": "memo", "id": rec["id"]},
+                          sig={"memo": rec["id"].split("/")[1], "clause": "MemoSingleComparer"})
+        else:
+            keep.append(rec)
+    records = keep
     val = tlcx.validate("PtEqCheck", "PtEqCheck.cfg", records, timeout=1200, per_shard=10)
     stats["states"] += val.states
     stats["transitions"] += val.transitions
